@@ -100,6 +100,7 @@ class LinEval:
         self.vec = dict(vectors)       # name -> Lin
         self.ops = set(operators)
         self.sc = dict(scalars)        # name -> Alg
+        self.opalias = {}              # local name -> operator name (`Q` / `Q^T`)
         self.atoms = Atoms()
 
     def scalar(self, e):
@@ -113,6 +114,11 @@ class LinEval:
             return None
 
     def op_name(self, e):
+        if isinstance(e, ast.Name) and e.id in self.opalias:
+            return self.opalias[e.id]
+        if isinstance(e, ast.Attribute) and e.attr in ('T', 'H') and isinstance(e.value, ast.Name) and e.value.id in self.opalias:
+            a = self.opalias[e.value.id]
+            return a[:-2] if a.endswith('^T') else a + '^T'
         if isinstance(e, ast.Name) and e.id in self.ops:
             return e.id
         if isinstance(e, ast.Attribute) and e.attr in ('T', 'H') and isinstance(e.value, ast.Name) and e.value.id in self.ops:
@@ -577,6 +583,10 @@ class LossExec:
             if isinstance(s.value, ast.Tuple):
                 self.tuples[n] = list(s.value.elts)
                 return
+            op = self.ev.op_name(s.value)
+            if op is not None:
+                self.ev.opalias[n] = op          # a local holding the query operator or its transpose (`Qt = Q.T`)
+                return
             if isinstance(s.value, ast.Call) and (U(s.value.func).split('.')[-1] == 'Factor') and len(s.value.args) == 2:
                 self.ctors[n] = s.value
                 return
@@ -604,6 +614,9 @@ class LossExec:
             return
         if isinstance(s, (ast.Expr, ast.Pass)):
             return
+        if isinstance(s, ast.Assign) and all(isinstance(x, ast.Attribute) and U(x.value) == 'self'
+                                             for t_ in s.targets for x in (t_.elts if isinstance(t_, (ast.Tuple, ast.List)) else [t_])):
+            return        # bookkeeping on the estimator object (cache resets and the like): no part of the loss value
         if isinstance(s, ast.If):
             if self.is_metric_test(s.test):
                 c = s.test.comparators[0].value
